@@ -5,17 +5,27 @@ namespace Cedar
 /-- iota-reduce the `match`es exposed by the last case split -/
 macro "red" : tactic => `(tactic| try simp only [])
 
-theorem sound_val {σ : Mapper} {req : Request} {es : Entities} {env : SlotEnv} {y : Result Value} {v : Value}
-    (h1 : y = .ok v) (h2 : v.DRT) : Sound σ req es env y (.val v) := ⟨h1, h2⟩
-theorem sound_err {σ : Mapper} {req : Request} {es : Entities} {env : SlotEnv} {y : Result Value} {c : ErrClass}
-    (c' : ErrClass) (h : y = .error c') : Sound σ req es env y (.err c) := ⟨c', h⟩
-theorem sound_res {σ : Mapper} {req : Request} {es : Entities} {env : SlotEnv} {y : Result Value} {r : Expr}
-    (h1 : NotRecord r) (h2 : TypedOK r y)
-    (h3 : ∀ n', Sem (pinterp σ (.ofConcrete req) (.ofConcrete es) env n' r) y) : Sound σ req es env y (.res r) := ⟨h1, h2, h3⟩
-theorem sound_fuel {σ : Mapper} {req : Request} {es : Entities} {env : SlotEnv} {y : Result Value} :
-    Sound σ req es env y .fuel := True.intro
-theorem sound_panic {σ : Mapper} {req : Request} {es : Entities} {env : SlotEnv} {y : Result Value} :
-    Sound σ req es env y .panic := True.intro
+theorem sound_val {σ : Mapper} {req : Request} {es : Entities} {env : SlotEnv} {nr : Prop} {y : Result Value} {v : Value}
+    (h1 : y = .ok v) (h2 : v.DRT) : Sound σ req es env nr y (.val v) := ⟨h1, h2⟩
+theorem sound_err {σ : Mapper} {req : Request} {es : Entities} {env : SlotEnv} {nr : Prop} {y : Result Value} {c : ErrClass}
+    (c' : ErrClass) (h : y = .error c') : Sound σ req es env nr y (.err c) := ⟨c', h⟩
+theorem sound_res {σ : Mapper} {req : Request} {es : Entities} {env : SlotEnv} {nr : Prop} {y : Result Value} {r : Expr}
+    (h1 : nr → NotRecord r) (h2 : TypedOK r y)
+    (h3 : ∀ n', Sem (pinterp σ (.ofConcrete req) (.ofConcrete es) env n' r) y) : Sound σ req es env nr y (.res r) := ⟨h1, h2, h3⟩
+theorem sound_fuel {σ : Mapper} {req : Request} {es : Entities} {env : SlotEnv} {nr : Prop} {y : Result Value} :
+    Sound σ req es env nr y .fuel := True.intro
+theorem sound_panic {σ : Mapper} {req : Request} {es : Entities} {env : SlotEnv} {nr : Prop} {y : Result Value} :
+    Sound σ req es env nr y .panic := True.intro
+
+/-- the record-freeness clause only gets weaker with a stronger premise -/
+theorem Sound.mono {σ : Mapper} {req : Request} {es : Entities} {env : SlotEnv} {nr nr' : Prop} {y : Result Value} {x : PRes}
+    (hn : nr' → nr) (h : Sound σ req es env nr y x) : Sound σ req es env nr' y x := by
+  cases x with
+  | val v => exact h
+  | err c => exact h
+  | res r => exact ⟨fun h' => h.1 (hn h'), h.2.1, h.2.2⟩
+  | fuel => trivial
+  | panic => trivial
 
 theorem RT_emptyRecord : RT (.record []) := by
   intro m req es env n
@@ -66,14 +76,14 @@ theorem beq_uid_ne {u1 u2 : EntityUID} (h : u1.ty ≠ u2.ty) :
 section
 variable (σ : Mapper) (req : Request) (es : Entities) (env : SlotEnv)
 
-theorem sound_var (hctx : (Value.record req.context).DRT) (v : Var) (m0 : Mapper) (preq : PRequest) (n : Nat)
+theorem sound_var {nr : Prop} (hctx : (Value.record req.context).DRT) (v : Var) (m0 : Mapper) (preq : PRequest) (n : Nat)
     (hC : Concretizes σ preq req) :
-    Sound σ req es env (evaluate req es env (.var v)) (pinterp m0 preq (.ofConcrete es) env n (.var v)) := by
+    Sound σ req es env nr (evaluate req es env (.var v)) (pinterp m0 preq (.ofConcrete es) env n (.var v)) := by
   cases n with
   | zero => simp [pinterp, Sound]
   | succ n =>
     have entry : ∀ (en : UidEntry) (key : String) (uid : EntityUID), en.Conc σ key uid →
-        Sound σ req es env (.ok (.prim (.entityUID uid))) (en.eval key) := by
+        Sound σ req es env nr (.ok (.prim (.entityUID uid))) (en.eval key) := by
       intro en key uid h
       cases en with
       | known u => simp only [UidEntry.Conc] at h; subst h; exact sound_val rfl trivial
@@ -81,12 +91,12 @@ theorem sound_var (hctx : (Value.record req.context).DRT) (v : Var) (m0 : Mapper
         cases ty with
         | none =>
           simp only [UidEntry.Conc] at h
-          refine sound_res trivial ?_ ?_
+          refine sound_res (fun _ => trivial) ?_ ?_
           · intro name t hh; cases hh
           · intro n'; cases n' <;> simp [pinterp, unknownToPV, h]
         | some t =>
           simp only [UidEntry.Conc] at h
-          refine sound_res trivial ?_ ?_
+          refine sound_res (fun _ => trivial) ?_ ?_
           · intro name t' hh; cases hh; exact ⟨uid, rfl, h.2⟩
           · intro n'; cases n' <;> simp [pinterp, unknownToPV, h.1, Value.typeOf, h.2]
     cases v with
@@ -99,7 +109,7 @@ theorem sound_var (hctx : (Value.record req.context).DRT) (v : Var) (m0 : Mapper
       cases hpc : preq.context with
       | none =>
         rw [hpc] at hc; simp only at hc
-        refine sound_res trivial ?_ ?_
+        refine sound_res (fun _ => trivial) ?_ ?_
         · intro name t hh; cases hh
         · intro n'; cases n' <;> simp [pinterp, unknownToPV, hc]
       | some c =>
@@ -109,7 +119,7 @@ theorem sound_var (hctx : (Value.record req.context).DRT) (v : Var) (m0 : Mapper
 
 theorem pinterp_sound_frag (hctx : (Value.record req.context).DRT) (hstore : StoreDRT es) {e : Expr} (hf : Frag e) :
     ∀ (m0 : Mapper) (preq : PRequest) (n : Nat), Concretizes σ preq req →
-      Sound σ req es env (evaluate req es env e) (pinterp m0 preq (.ofConcrete es) env n e) := by
+      Sound σ req es env (NR e) (evaluate req es env e) (pinterp m0 preq (.ofConcrete es) env n e) := by
   induction hf with
   | lit p =>
     intro m0 preq n hC
@@ -155,7 +165,7 @@ theorem pinterp_sound_frag (hctx : (Value.record req.context).DRT) (hstore : Sto
             | res rb =>
               red
               rw [hxb] at sb
-              refine sound_res trivial (typedOK_vacuous (by intro _ _ h; cases h)) ?_
+              refine sound_res (fun _ => trivial) (typedOK_vacuous (by intro _ _ h; cases h)) ?_
               have hv := asBool_ok hb; subst hv
               exact sem_and σ _ _ env req es (by rw [hev]; exact sem_lit _ _ _ _ _) sb.2.2
       | res l =>
@@ -166,7 +176,7 @@ theorem pinterp_sound_frag (hctx : (Value.record req.context).DRT) (hstore : Sto
         | none => red; exact sound_stuck (best_none hB)
         | some X =>
           red
-          refine sound_res trivial (typedOK_vacuous (by intro _ _ h; cases h)) ?_
+          refine sound_res (fun _ => trivial) (typedOK_vacuous (by intro _ _ h; cases h)) ?_
           exact sem_and σ _ _ env req es sa.2.2 (sem_best hfb ihb sb hB)
   | @or a b hfa hfb iha ihb =>
     intro m0 preq n hC
@@ -203,7 +213,7 @@ theorem pinterp_sound_frag (hctx : (Value.record req.context).DRT) (hstore : Sto
             | res rb =>
               red
               rw [hxb] at sb
-              refine sound_res trivial (typedOK_vacuous (by intro _ _ h; cases h)) ?_
+              refine sound_res (fun _ => trivial) (typedOK_vacuous (by intro _ _ h; cases h)) ?_
               have hv := asBool_ok hb; subst hv
               exact sem_or σ _ _ env req es (by rw [hev]; exact sem_lit _ _ _ _ _) sb.2.2
       | res l =>
@@ -214,7 +224,7 @@ theorem pinterp_sound_frag (hctx : (Value.record req.context).DRT) (hstore : Sto
         | none => red; exact sound_stuck (best_none hB)
         | some X =>
           red
-          refine sound_res trivial (typedOK_vacuous (by intro _ _ h; cases h)) ?_
+          refine sound_res (fun _ => trivial) (typedOK_vacuous (by intro _ _ h; cases h)) ?_
           exact sem_or σ _ _ env req es sa.2.2 (sem_best hfb ihb sb hB)
   | @ite c t e hfc hft hfe ihc iht ihe =>
     intro m0 preq n hC
@@ -239,11 +249,11 @@ theorem pinterp_sound_frag (hctx : (Value.record req.context).DRT) (hstore : Sto
           | true =>
             red
             have : evaluate req es env (.ite c t e) = evaluate req es env t := by simp [evaluate, hev, hb]
-            rw [this]; exact st
+            rw [this]; exact st.mono (fun h => by simp only [NR] at h; exact h.1)
           | false =>
             red
             have : evaluate req es env (.ite c t e) = evaluate req es env e := by simp [evaluate, hev, hb]
-            rw [this]; exact se
+            rw [this]; exact se.mono (fun h => by simp only [NR] at h; exact h.2)
       | res g =>
         red
         rw [hxc] at sc
@@ -256,7 +266,7 @@ theorem pinterp_sound_frag (hctx : (Value.record req.context).DRT) (hstore : Sto
           | none => red; exact sound_stuck (best_none hBe)
           | some E =>
             red
-            refine sound_res trivial (typedOK_vacuous (by intro _ _ h; cases h)) ?_
+            refine sound_res (fun _ => trivial) (typedOK_vacuous (by intro _ _ h; cases h)) ?_
             exact sem_ite σ _ _ env req es sc.2.2 (sem_best hft iht st hBt) (sem_best hfe ihe se hBe)
   | @unaryApp op a hfa iha =>
     intro m0 preq n hC
@@ -277,8 +287,8 @@ theorem pinterp_sound_frag (hctx : (Value.record req.context).DRT) (hstore : Sto
       | res l =>
         red
         rw [hxa] at sa
-        exact sound_res trivial (typedOK_vacuous (by intro _ _ h; cases h)) (sem_unary σ _ _ env req es op sa.2.2)
-  | @binaryApp op a b hop hfa hfb iha ihb =>
+        exact sound_res (fun _ => trivial) (typedOK_vacuous (by intro _ _ h; cases h)) (sem_unary σ _ _ env req es op sa.2.2)
+  | @binaryApp op a b hfa hfb iha ihb =>
     intro m0 preq n hC
     cases n with
     | zero => simp [pinterp, Sound]
@@ -301,8 +311,8 @@ theorem pinterp_sound_frag (hctx : (Value.record req.context).DRT) (hstore : Sto
           red
           rw [hxb] at sb; obtain ⟨hevb, _⟩ := sb
           have : evaluate req es env (.binaryApp op a b) = applyBinary es op v1 v2 := by simp [evaluate, hev, hevb]
-          rw [this, papplyBinary_storeFree _ es op hop]
-          exact sound_ofResult (fun w hw => applyBinary_DRT hop hw)
+          rw [this, papplyBinary_ofConcrete]
+          exact sound_ofResult (fun w hw => applyBinary_DRT' hstore hw)
         | res e2 =>
           red
           rw [hxb] at sb
@@ -316,8 +326,8 @@ theorem pinterp_sound_frag (hctx : (Value.record req.context).DRT) (hstore : Sto
             simp [evaluate, hev, hu, applyBinary, hbq]
           | none =>
             red
-            refine sound_res trivial (typedOK_vacuous (by intro _ _ h; cases h)) ?_
-            exact sem_binary σ _ _ env req es op hop (by rw [hev]; exact sem_toExpr hd1 _ _ _ _) sb.2.2
+            refine sound_res (fun _ => trivial) (typedOK_vacuous (by intro _ _ h; cases h)) ?_
+            exact sem_binary σ _ env req es op (by rw [hev]; exact sem_toExpr hd1 _ _ _ _) sb.2.2
       | res e1 =>
         red
         rw [hxa] at sa
@@ -344,8 +354,8 @@ theorem pinterp_sound_frag (hctx : (Value.record req.context).DRT) (hstore : Sto
             simp [evaluate, hevb, hu, applyBinary, hbq]
           | none =>
             red
-            refine sound_res trivial (typedOK_vacuous (by intro _ _ h; cases h)) ?_
-            exact sem_binary σ _ _ env req es op hop sa.2.2 (by rw [hevb]; exact sem_toExpr hd2 _ _ _ _)
+            refine sound_res (fun _ => trivial) (typedOK_vacuous (by intro _ _ h; cases h)) ?_
+            exact sem_binary σ _ env req es op sa.2.2 (by rw [hevb]; exact sem_toExpr hd2 _ _ _ _)
         | res e2 =>
           red
           rw [hxb] at sb
@@ -360,9 +370,9 @@ theorem pinterp_sound_frag (hctx : (Value.record req.context).DRT) (hstore : Sto
             simp [evaluate, hua, hub, applyBinary, hbq]
           | none =>
             red
-            refine sound_res trivial (typedOK_vacuous (by intro _ _ h; cases h)) ?_
-            exact sem_binary σ _ _ env req es op hop sa.2.2 sb.2.2
-  | @getAttr e attr hfe ihe =>
+            refine sound_res (fun _ => trivial) (typedOK_vacuous (by intro _ _ h; cases h)) ?_
+            exact sem_binary σ _ env req es op sa.2.2 sb.2.2
+  | @getAttr e attr hnr hfe ihe =>
     intro m0 preq n hC
     cases n with
     | zero => simp [pinterp, Sound]
@@ -377,8 +387,8 @@ theorem pinterp_sound_frag (hctx : (Value.record req.context).DRT) (hstore : Sto
         red
         rw [hxe] at se
         split
-        · exact se.1.elim
-        · exact sound_res trivial (typedOK_vacuous (by intro _ _ h; cases h)) (sem_getAttr σ _ env req es attr se.2.2)
+        · exact (se.1 hnr).elim
+        · exact sound_res (fun _ => trivial) (typedOK_vacuous (by intro _ _ h; cases h)) (sem_getAttr σ _ env req es attr se.2.2)
       | val v =>
         red
         rw [hxe] at se; obtain ⟨hev, hd⟩ := se
@@ -407,7 +417,7 @@ theorem pinterp_sound_frag (hctx : (Value.record req.context).DRT) (hstore : Sto
               cases hl : lookupKV d.attrs attr with
               | none => red; exact sound_err .attr (by simp [evaluate, hev, hfu, hl])
               | some w => red; exact sound_val (by simp [evaluate, hev, hfu, hl]) ((hstore u d hfu).1 attr w hl)
-  | @hasAttr e attr hfe ihe =>
+  | @hasAttr e attr hnr hfe ihe =>
     intro m0 preq n hC
     cases n with
     | zero => simp [pinterp, Sound]
@@ -422,8 +432,8 @@ theorem pinterp_sound_frag (hctx : (Value.record req.context).DRT) (hstore : Sto
         red
         rw [hxe] at se
         split
-        · exact se.1.elim
-        · exact sound_res trivial (typedOK_vacuous (by intro _ _ h; cases h)) (sem_hasAttr σ _ env req es attr se.2.2)
+        · exact (se.1 hnr).elim
+        · exact sound_res (fun _ => trivial) (typedOK_vacuous (by intro _ _ h; cases h)) (sem_hasAttr σ _ env req es attr se.2.2)
       | val v =>
         red
         rw [hxe] at se; obtain ⟨hev, hd⟩ := se
@@ -456,7 +466,7 @@ theorem pinterp_sound_frag (hctx : (Value.record req.context).DRT) (hstore : Sto
       | res r =>
         red
         rw [hxe] at se
-        exact sound_res trivial (typedOK_vacuous (by intro _ _ h; cases h)) (sem_like σ _ _ env req es p se.2.2)
+        exact sound_res (fun _ => trivial) (typedOK_vacuous (by intro _ _ h; cases h)) (sem_like σ _ _ env req es p se.2.2)
       | val v =>
         red
         rw [hxe] at se; obtain ⟨hev, _⟩ := se
@@ -481,13 +491,100 @@ theorem pinterp_sound_frag (hctx : (Value.record req.context).DRT) (hstore : Sto
         · rename_i name t
           obtain ⟨u, hu, hty⟩ := se.2.1 name t rfl
           exact sound_val (by simp [evaluate, hu, Value.asEntity, hty]) trivial
-        · exact sound_res trivial (typedOK_vacuous (by intro _ _ h; cases h)) (sem_is σ _ _ env req es ty se.2.2)
+        · exact sound_res (fun _ => trivial) (typedOK_vacuous (by intro _ _ h; cases h)) (sem_is σ _ _ env req es ty se.2.2)
       | val v =>
         red
         rw [hxe] at se; obtain ⟨hev, _⟩ := se
         cases hs : v.asEntity with
         | error c => red; exact sound_err c (by simp [evaluate, hev, hs])
         | ok u => red; exact sound_val (by simp [evaluate, hev, hs]) (trivial)
+  | @set xs hxs ih =>
+    intro m0 preq n hC
+    cases n with
+    | zero => simp [pinterp, Sound]
+    | succ n =>
+      have hc := collect_sound σ req es env (pinterp m0 preq (.ofConcrete es) env n) xs (fun x hx => ih x hx m0 preq n hC)
+      simp only [pinterp]
+      cases hcc : collectPV (pinterp m0 preq (.ofConcrete es) env n) xs with
+      | error r =>
+        rw [hcc] at hc; red
+        rcases hc with h | h | ⟨c, h, c', h2⟩
+        · subst h; exact sound_fuel
+        · subst h; exact sound_panic
+        · subst h; exact sound_err c' (by simp [evaluate, h2])
+      | ok pvs =>
+        rw [hcc] at hc; red
+        cases hs : splitPV pvs with
+        | inl vs =>
+          red
+          have hp := splitPV_inl hs; subst hp
+          obtain ⟨he, hd⟩ := pvrel_values σ req es env hc
+          refine sound_val (by simp [evaluate, he]) ?_
+          simp only [Value.DRT]
+          exact RT_set (fun w hw => (hd w (mem_mkSet hw)).rt) (mkSet_idem vs)
+        | inr rs =>
+          red
+          have hp := splitPV_inr hs; subst hp
+          refine sound_res (fun _ => trivial) (typedOK_vacuous (by intro _ _ h; cases h)) ?_
+          exact sem_set σ _ env req es (pvrel_asExpr σ req es env hc)
+  | @call fn args hfn hdrt hxs ih =>
+    intro m0 preq n hC
+    cases n with
+    | zero => simp [pinterp, Sound]
+    | succ n =>
+      have hc := collect_sound σ req es env (pinterp m0 preq (.ofConcrete es) env n) args (fun x hx => ih x hx m0 preq n hC)
+      simp only [pinterp]
+      cases hcc : collectPV (pinterp m0 preq (.ofConcrete es) env n) args with
+      | error r =>
+        rw [hcc] at hc; red
+        rcases hc with h | h | ⟨c, h, c', h2⟩
+        · subst h; exact sound_fuel
+        · subst h; exact sound_panic
+        · subst h; exact sound_err c' (by simp [evaluate, h2])
+      | ok pvs =>
+        rw [hcc] at hc; red
+        cases hs : splitPV pvs with
+        | inl vs =>
+          red
+          have hp := splitPV_inl hs; subst hp
+          obtain ⟨he, hd⟩ := pvrel_values σ req es env hc
+          have : evaluate req es env (.call fn args) = callExt fn vs := by simp [evaluate, he]
+          rw [this, pcallExt_ne_unknown hfn]
+          exact sound_ofResult (fun w hw => hdrt vs w hw)
+        | inr rs =>
+          red
+          have hp := splitPV_inr hs; subst hp
+          refine sound_res (fun _ => trivial) (typedOK_vacuous (by intro _ _ h; cases h)) ?_
+          exact sem_call σ _ env req es hfn (pvrel_asExpr σ req es env hc)
+  | @record kvs hkvs ih =>
+    intro m0 preq n hC
+    cases n with
+    | zero => simp [pinterp, Sound]
+    | succ n =>
+      have hc := collectKVs_sound σ req es env (pinterp m0 preq (.ofConcrete es) env n) kvs (fun kv hkv => ih kv hkv m0 preq n hC)
+      simp only [pinterp]
+      cases hcc : collectPVKVs (pinterp m0 preq (.ofConcrete es) env n) kvs with
+      | error r =>
+        rw [hcc] at hc; red
+        rcases hc with h | h | ⟨c, h, c', h2⟩
+        · subst h; exact sound_fuel
+        · subst h; exact sound_panic
+        · subst h; exact sound_err c' (by simp [evaluate, h2])
+      | ok pkvs =>
+        rw [hcc] at hc; red
+        cases hs : splitPV (pkvs.map (·.2)) with
+        | inl vs =>
+          red
+          obtain ⟨he, hd⟩ := pvrelKV_values σ req es env hc (splitPV_inl hs)
+          refine sound_val (by simp [evaluate, he]) ?_
+          apply record_DRT
+          intro p hp
+          exact hd p.2 (List.of_mem_zip hp).2
+        | inr rs =>
+          red
+          have hp := splitPV_inr hs; subst hp
+          refine sound_res (fun h => h.elim) (typedOK_vacuous (by intro _ _ h; cases h)) ?_
+          exact sem_record σ _ env req es (pvrelKV_asExpr σ req es env hc)
 
 end
 
